@@ -125,7 +125,17 @@ def rule_R3(chk, repo):
         ok = a is not None and a == Affine.sym('terminal_dist') - Affine.const(1)
         chk.ob(rid, where(repo, sub, c), '_insert_subtree: distance to the terminal decreases by one per level', ok,
                norm(c.args[2]) if len(c.args) >= 3 else '', key=f'{rid}|rec-dist')
-        ok2 = len(c.args) >= 2 and norm(c.args[0]) == 'edge.node' and norm(c.args[1]) == 'nid_next'
+        # child node of the tree edge being processed, under the node id used as the far end of the new graph edge
+        loops_ = [l for l in enclosing_loops(sub.node, c) if isinstance(l, ast.For)]
+        ev = norm(loops_[-1].target) if loops_ else None
+        far = None
+        for l in loops_[-1:]:
+            for x in ast.walk(l):
+                if isinstance(x, ast.Call) and ts.callee_name(x) == 'OpGraphEdge' and len(x.args) >= 2 and \
+                        isinstance(x.args[1], ast.List) and len(x.args[1].elts) == 2:
+                    far = norm(x.args[1].elts[1])
+        ok2 = len(c.args) >= 2 and ev is not None and norm(c.args[0]) == f'{ev}.node' and norm(c.args[1]) == far and \
+            bool(loops_) and norm(loops_[-1].iter).endswith('.children')
         chk.ob(rid, where(repo, sub, c), '_insert_subtree: recursion continues at the child node under the new graph node',
                ok2, norm(c)[:80], key=f'{rid}|rec-args')
         n += 2
@@ -135,7 +145,9 @@ def rule_R3(chk, repo):
         raise AnalysisError('from_optrees: _insert_subtree call not found')
     for c in calls:
         a = try_affine(c.args[2]) if len(c.args) >= 3 else None
-        ok = a is not None and a == Affine.sym('length') - Affine.sym('tree.istart')
+        tl = [l for l in enclosing_loops(top.node, c) if isinstance(l, ast.For)]
+        tv = norm(tl[-1].target) if tl else 'tree'
+        ok = a is not None and a == Affine.sym('length') - Affine.sym(f'{tv}.istart')
         chk.ob(rid, where(repo, top, c), 'from_optrees: initial distance is length - istart', ok,
                norm(c.args[2]) if len(c.args) >= 3 else '', key=f'{rid}|init-dist')
         n += 1
@@ -178,7 +190,8 @@ def rule_R4(chk, repo):
                   '"E inactive at site i" and "E.nids[0] not in ACT[i]"; new nodes enumerate ACT[i+1]; E ranges over the '
                   'incoming edges eids[0] of the automaton node; ACT is the element-wise intersection of forward and '
                   'backward reachability; reachability in direction d starts at terminal 1-d and follows eids[d] -> nids[d].')
-    fi = repo.func('opgraph.OpGraph.from_automaton')
+    from ..canon import canonical, DIRECTION_LOOP
+    fi = canonical(repo.func('opgraph.OpGraph.from_automaton'), (), DIRECTION_LOOP)
     edge_calls = [c for c in ast.walk(fi.node) if isinstance(c, ast.Call) and ts.callee_name(c) == 'OpGraphEdge']
     if len(edge_calls) != 1:
         raise AnalysisError(f'from_automaton: expected one OpGraphEdge construction, found {len(edge_calls)}')
